@@ -36,8 +36,10 @@ STREAMS = [
     simlib.sim_stream("sockfail", {"sockfail_w": 0.14, "udpmax_prob": 0.5, "flagprobs": {0: 0.3, 4: 0.5, 2: 0.1}, "react_prob": 0.3,
                                    "react_cancel_w": 1, "tcp_ops": 0.5, "pendingwrite_prob": 0.2}, simprops.mon_c10,
                       quick_n=500, thorough_n=12000, quick_ops=50, thorough_ops=200),
+    # front ends outside the channel model (sorting probes of getaddrinfo, gethostbyname/addr, getnameinfo): protocol monitors only
+    simlib.lookups_stream(lambda c, o: simprops.mon_c10(c, o) + simprops.mon_c01(c, o)),
 ]
 
-LEVEL_TEXT = "Proof: Lean 4 invariant over the model's socket call log: per descriptor open, then connect/send/recv, at most one close and nothing after it; destroy closes everything; UDP per-socket query limit; notifications never repeat and stop exactly once. Tie: the virtual socket layer never reuses descriptors, logs every call and injects failures at socket/connect/send/recv; monitor checks the same protocol on the implementation's log, plus the legacy polling set."
+LEVEL_TEXT = "Proof: Lean 4 invariant over the model's socket call log: per descriptor open, then connect/send/recv, at most one close and nothing after it; destroy closes everything; UDP per-socket query limit; notifications never repeat and stop exactly once. Tie: the virtual socket layer names every socket by a never-reused logical id (and, in half of the scenarios, hands the library the lowest free descriptor number as POSIX does), logs every call and injects failures at socket/connect/send/recv; monitor checks the same protocol on the implementation's log, plus the legacy polling set. The throw-away sockets with which getaddrinfo's RFC 6724 sorting probes source addresses, and the gethostbyname/gethostbyaddr/getnameinfo front ends, are outside the model: a monitor-only stream checks the same protocol (every socket opened is closed, none survives destroy) on them, with getsockname/connect/socket failures injected."
 LEVEL_NOTE = 'Trusted: Lean kernel; model faithfulness; the virtual socket layer (TCP fast open is reported unsupported by the virtual OS; bind/setsockopt options are not configured in the scenarios).'
 TECHNIQUE = 'Lean 4 invariant proof over the socket call log + differential correspondence with socket fault injection'
